@@ -206,4 +206,62 @@ example :
   simp [processBucket, rateAndLimitForCategory, u32Mul, refillOf, satMulU64, U32_MAX, U64_MAX,
     NANOS_PER_SEC, bind, Out.bind]
 
+/-! #### a concrete history satisfying every hypothesis of `C26_history` -/
+
+/-- a `RandomState` for the example: a hash that separates the two names used below -/
+def exRs : RandomState :=
+  { hashName := fun n => UInt32.ofNat (n.foldl (fun a b => a * 256 + b.toNat) 0)
+    hashKey := fun k => k.qname_hash.toNat + (match k.category with | .NoError => 0 | .NxDomain => 1 | .Error => 2) }
+
+def exCtx (rcode : Nat) (qname : List UInt8) : Context :=
+  { send_response := true, transport := .Udp, opcode := 0,
+    source := ReceivedInfo.new (.v4 0xC0000201), extended_rcode := rcode,
+    question := some qname, source_of_synthesis := none,
+    response := { tc := false, ancount := 1, nscount := 0, arcount := 0, edns := false, tsig := false },
+    rrl_action := none }
+
+/-- three NOERROR responses for `a.` (at 0 s, 0 s and 0.5 s) and one NXDOMAIN for `b.` -/
+def exReqs : List Req :=
+  [ ⟨.v4 0xC0000201, 0, false, exCtx 0 [1, 97, 0]⟩,
+    ⟨.v4 0xC0000201, 0, false, exCtx 0 [1, 65, 0]⟩,
+    ⟨.v4 0xC0000201, 500000000, false, exCtx 3 [1, 98, 0]⟩,
+    ⟨.v4 0xC0000201, 500000000, false, exCtx 0 [1, 97, 0]⟩ ]
+
+def exP1 : RrlParams := { exParams with noerror_rate := 1, window := 2 }
+
+theorem exP1_valid : exP1.Valid := by
+  refine ⟨?_, by decide, ?_, by decide⟩ <;> intro c <;> cases c <;> simp [capOf, rateOf, exP1, exParams, U32_MAX]
+
+theorem exKeys : ∀ q ∈ exReqs,
+    q.key? exRs exP1 = some { dest := 0xC0000200, ipv6 := false, qname_hash := 0x016100, category := .NoError } ∨
+    q.key? exRs exP1 = some { dest := 0xC0000200, ipv6 := false, qname_hash := 0, category := .NxDomain } := by
+  decide
+
+
+theorem exMasks : MasksOf exP1 24 56 := ⟨by decide, by decide, rfl, rfl⟩
+
+theorem exHyps :
+    AllWF exReqs ∧ Mono 0 exReqs ∧ SourcesCanonical exReqs ∧ NoBucketCollision exRs exP1 exReqs ∧
+    NoInitialKey exRs exP1 exReqs ∧ HashInjectiveOn exRs exReqs := by
+  refine ⟨?_, ?_, ?_, ?_, ?_, ?_⟩
+  · unfold AllWF Context.WF; decide
+  · simp [Mono, exReqs]
+  · unfold SourcesCanonical; decide
+  · intro q hq q' hq' k k' hk hk' hidx
+    rcases exKeys q hq with h | h <;> rcases exKeys q' hq' with h' | h' <;>
+      rw [h] at hk <;> rw [h'] at hk' <;> cases hk <;> cases hk' <;>
+      first | rfl | (exfalso; revert hidx; decide)
+  · intro q hq h
+    rcases exKeys q hq with h1 | h1 <;> rw [h1] at h <;> simp [initialKey] at h
+  · unfold HashInjectiveOn; decide
+
+/-- … and on it the theorem's conclusion reads: the two `a.`/`A.` responses at t = 0 and the
+    NXDOMAIN are sent, the third NOERROR response 0.5 s later is slipped (limit 2, slip 1) -/
+example :
+    (runAll exRs (Rrl.new exP1 0) exReqs).toOption.map (·.map (·.rrl_action)) =
+      some [some .Send, some .Send, some .Send, some .Slip] := by
+  rw [C26_history exP1_valid exMasks 0 exReqs exHyps.1 exHyps.2.1 exHyps.2.2.1 exHyps.2.2.2.1
+    exHyps.2.2.2.2.1 exHyps.2.2.2.2.2]
+  decide
+
 end QV.C26
